@@ -467,7 +467,10 @@ class Lexicon:
         self.patterns, self.names = patterns, names
         self.master = build_nfa(patterns)
         self.singles = [build_nfa([p]) for p in patterns]
-        self.alpha = Alphabet([self.master])
+        # reference monitors distinguish delimiter characters even where no pattern does (e.g. the two quote kinds
+        # under the class ["']): keep every ASCII punctuation / control white-space character as its own atom
+        singles = [CharSet([("lit", cp)]) for cp in range(128) if not chr(cp).isalnum() and chr(cp) != "_"]
+        self.alpha = Alphabet([self.master], singles)
         self.M = Matcher(self.master, self.alpha)
         self.R = [Matcher(n, self.alpha) for n in self.singles]
         self.L = [Matcher(n, self.alpha, cut=False) for n in self.singles]
